@@ -1044,14 +1044,18 @@ class CompressedData(Packet):
         self.packets = []
 
     def __bytearray__(self):
-        _bytes = bytearray()
-        _bytes += super(CompressedData, self).__bytearray__()
-        _bytes += bytearray([self.calg])
-
         _pb = bytearray()
         for pkt in self.packets:
             _pb += pkt.__bytearray__()
-        _bytes += self.calg.compress(bytes(_pb))
+        cdata = self.calg.compress(bytes(_pb))
+        # the compressed octets are made here: for a packet that was parsed they need not be the
+        # ones that were read (other level or strategy), so the header has to count these
+        self.header.length = 1 + len(cdata)
+
+        _bytes = bytearray()
+        _bytes += super(CompressedData, self).__bytearray__()
+        _bytes += bytearray([self.calg])
+        _bytes += cdata
 
         return _bytes
 
